@@ -1,7 +1,8 @@
 (* C18 property theorems added in phase 3 (the C18 engineer's part of coq/C16; the earlier C18 theorems are in Properties.v).
    Nothing but statements closed by `exact`, each followed by Print Assumptions. *)
 From Coq Require Import String List.
-From C16 Require Import ObjModel RaceFree RaceFreeDisjoint RaceFreeValues RaceFreeGen.
+From C16 Require Import ObjModel RaceFree RaceFreeDisjoint RaceFreeValues.
+From C16.gen Require Import RaceFreeGen.
 
 (* disjoint footprints: every thread stays inside its region A i and no other thread writes into it (thread-private elements,
    independent values) -> for any number of threads and every interleaving: no conflicting pair of accesses ... *)
